@@ -436,19 +436,41 @@ func (s *HASyncer) broadcastLoop() {
 }
 
 // broadcastToClients sends a message to all connected SSE clients.
+//
+// A client whose channel is full cannot take the message. Dropping the message
+// and carrying on would leave that standby with a hole in the change sequence
+// that nothing ever repairs (the standby does not check sequence numbers), so
+// the client's stream is ended instead: the standby reconnects and starts over
+// with a full synchronisation. Only broadcastLoop sends on these channels, so
+// closing one here cannot race with a send.
 func (s *HASyncer) broadcastToClients(msg *SyncMessage) {
-	s.sseClientsMu.RLock()
-	defer s.sseClientsMu.RUnlock()
+	stalled := map[string]chan *SyncMessage{}
 
+	s.sseClientsMu.RLock()
 	for clientID, ch := range s.sseClients {
 		select {
 		case ch <- msg:
 		default:
-			s.logger.Warn("Client channel full, dropping message",
+			stalled[clientID] = ch
+		}
+	}
+	s.sseClientsMu.RUnlock()
+
+	if len(stalled) == 0 {
+		return
+	}
+
+	s.sseClientsMu.Lock()
+	for clientID, ch := range stalled {
+		if cur, ok := s.sseClients[clientID]; ok && cur == ch {
+			delete(s.sseClients, clientID)
+			close(ch)
+			s.logger.Warn("Client channel full, ending its stream (the standby will resynchronise)",
 				zap.String("client", clientID),
 			)
 		}
 	}
+	s.sseClientsMu.Unlock()
 }
 
 // PushChange queues a session change to be pushed to standby nodes.
